@@ -11,7 +11,7 @@ Definition oracle := nat -> fault.
 
 Inductive call :=
 | COpenR (p : str) | COpenExcl (p : str) | COpenW (p : str) | COpenA (p : str) | COpenDir (p : str)
-| CClose | CRead (n : nat) | CWrite (n : nat) | CSendfile (off n : nat)
+| CClose | CRead (n : nat) | CReadN (n : N) (* read with a size taken from the input *) | CWrite (n : nat) | CSendfile (off n : nat)
 (* the *at calls carry the directory behind the descriptor (not printed in the log) *)
 | CMkdir (p : str) | CMkdirat (dir p : str) | CRmdir (p : str) | CUnlink (p : str) | CUnlinkat (dir name : str)
 | CLink (a b : str) | CLinkat (a dir b : str) | CSymlinkat (target dir name : str)
